@@ -321,6 +321,11 @@ def build(run):
                   ("trilinear inner(grad w, grad v)*u", inner(grad(w3), grad(v)) * u * dx), ("trilinear conj(v*w)*u*f", conj(v * w3) * u * f * dx),
                   ("derivative of a bilinear form in a third direction", derivative(f ** 3 * u * conj(v) * dx, f, w3)),
                   ("derivative of a bilinear form in a conjugated direction", derivative(f ** 3 * u * conj(v) * dx, f, conj(w3)))]
+        # integrals WITHOUT any argument next to integrals with arguments (kept apart by integral type, subdomain or metadata): an affine form
+        forms += [("affine: u*conj(v)*dx + f*ds", u * conj(v) * dx + f * ufl.ds), ("affine: f*conj(v)*dx + g*ds", f * conj(v) * dx + g * ufl.ds),
+                  ("affine: u*conj(v)*dx + f*dx(1)", u * conj(v) * dx + f * dx(1)), ("affine: u*conj(v)*dx + f*dx(degree=1)", u * conj(v) * dx + f * dx(degree=1)),
+                  ("affine: inner(u,v)*dx + conj(f)*ds", inner(u, v) * dx + conj(f) * ufl.ds), ("affine: f*conj(v)*ds(1) + sin(g)*g*ds(2)", f * conj(v) * ufl.ds(1) + sin(g) * g * ufl.ds(2)),
+                  ("linear only: f*conj(v)*dx + g*conj(v)*ds", f * conj(v) * dx + g * conj(v) * ufl.ds), ("functional only: f*dx + g*ds", f * dx + g * ufl.ds)]
         n = 0
         for name, form in forms:
             try:
